@@ -375,4 +375,70 @@ Section D.
 
   Theorem InvN_run sched : InvN (run (step sess) init sched).
   Proof. apply invariant_run; [apply InvN_init|]. intros s t s'. apply InvN_step. Qed.
+
+  (* ---------- the disconnect is not held up by background threads either ---------- *)
+  Definition InvK (s : st) : Prop := cpc s = CIdle \/ cancelled s = true.
+
+  Lemma InvK_step s t s' : InvK s -> step sess s t = Some s' -> InvK s'.
+  Proof.
+    intros HK Hs.
+    assert (Hh : forall g i a, step_handler sess s g i a = Some s' -> InvK s').
+    { clear Hs. intros g i a Hs. unfold InvK in *. destruct g as [| | | |key]; simpl in Hs.
+      - destruct (lpc s) as [|k|k|]; try discriminate.
+        destruct (nth_error (g_int s) i) as [pc|]; [|destruct a; discriminate].
+        destruct pc, a; simpl in Hs; try discriminate; try (inv Hs; simpl; auto; fail).
+        destruct (all_done (g_conn s)); inv Hs. simpl; auto.
+      - destruct (lpc s); try discriminate.
+        apply plain_inv in Hs as (pc & pc' & o & Hn & Hsp & ->). destruct o; simpl; auto.
+      - destruct (lpc s); try discriminate.
+        apply plain_inv in Hs as (pc & pc' & o & Hn & Hsp & ->). destruct o; simpl; auto.
+      - apply plain_inv in Hs as (pc & pc' & o & Hn & Hsp & ->). destruct o; simpl; auto.
+      - destruct (bg_find key (bgs s)) as [[g|]|]; try discriminate.
+        apply plain_inv in Hs as (pc & pc' & o & Hn & Hsp & ->). destruct o; simpl; auto. }
+    unfold InvK in *.
+    destruct t as [| | | | |key|g i|g i]; simpl in Hs; eauto.
+    - destruct (rhold s).
+      + destruct (Nat.ltb (length (inq s)) cap_in); inv Hs. auto.
+      + destruct (Nat.ltb (rpos s) (length (lines sess))); inv Hs. auto.
+    - destruct (lpc s).
+      + destruct (inq s); inv Hs. auto.
+      + destruct (all_done (g_int s)); inv Hs. auto.
+      + destruct (all_done (g_fg s)); inv Hs. auto.
+      + discriminate.
+    - destruct (lpc s); try discriminate. destruct (cancelled s) eqn:Ecn; inv Hs. simpl. auto.
+    - destruct (cpc s) eqn:Ec.
+      + destruct (can_close sess); inv Hs. simpl. auto.
+      + destruct (lpc s); inv Hs. simpl. destruct HK; [discriminate|auto].
+      + destruct (all_done (g_disc s)); inv Hs. simpl. destruct HK; [discriminate|auto].
+      + discriminate.
+    - destruct (cpc s); try discriminate. destruct (inq s); inv Hs. simpl. destruct HK; [discriminate|auto].
+    - destruct (bg_find key (bgs s)) as [[g|]|]; inv Hs. auto.
+  Qed.
+
+  Theorem InvK_run sched : InvK (run (step sess) init sched).
+  Proof. apply invariant_run; [now left|]. intros s t s'. apply InvK_step. Qed.
+
+  (* once Close / EOF has cancelled the connection and until DISCONNECTED has been dispatched to
+     completion, some NON-background thread is enabled: the loop finishing its dispatch and
+     leaving, the closer, or a foreground DISCONNECTED handler — whatever background handlers do *)
+  Theorem closer_progress s :
+    InvN s -> InvK s -> cpc s = CWait \/ cpc s = CDisp ->
+    exists t, is_bg t = false /\ step sess s t <> None.
+  Proof.
+    intros HN HK Hc. pose proof HN as (N1 & N2 & N3).
+    destruct Hc as [Hc|Hc].
+    - destruct HK as [HK|HK]; [congruence|].
+      destruct (lpc s) as [|k|k|] eqn:El.
+      + exists TLoopQuit. split; [reflexivity|]. simpl. rewrite El, HK. discriminate.
+      + assert (Hw : work_remains s = true) by (unfold work_remains; now rewrite El).
+        destruct (progress s HN Hw) as (t & H1 & H2). exists t. split; [eapply bg_isolated; eauto|exact H2].
+      + assert (Hw : work_remains s = true) by (unfold work_remains; now rewrite El).
+        destruct (progress s HN Hw) as (t & H1 & H2). exists t. split; [eapply bg_isolated; eauto|exact H2].
+      + exists TCloser. split; [reflexivity|]. simpl. rewrite Hc, El. discriminate.
+    - destruct (all_done (g_disc s)) eqn:Ed.
+      + exists TCloser. split; [reflexivity|]. simpl. rewrite Hc, Ed. discriminate.
+      + destruct (not_all_done _ Ed) as (i & pc & Hn & Hd).
+        exists (THandler GDiscFg i). split; [reflexivity|].
+        simpl. eapply plain_enabled; eauto. eapply (Forall_nth _ _ _ _ N3); eauto.
+  Qed.
 End D.
